@@ -37,6 +37,7 @@ ACQUISITIONS = {}                     # role -> number of first acquisitions rec
 REENTRANT = [0]
 WAITING = {}                          # thread ident -> SpyRLock it is blocked on (only while blocked)
 THREAD_ROLE = {}                      # thread ident -> role (for reports)
+THREAD_ROLE_TAGGED = set()            # idents of threads tagged by the driving code (set_role)
 HOOK = [None]                         # f(role, frozenset(held names), req name) before a blocking first acquire
 QUEUE_OPS = dict(blocking_calls=0, would_block=[])
 
@@ -77,6 +78,7 @@ def set_role(role, multi=False, life=False):
     the role; it holds the role's LifeLock until end_role()."""
     _tls.role = (role, bool(multi))
     THREAD_ROLE[_thread.get_ident()] = role
+    THREAD_ROLE_TAGGED.add(_thread.get_ident())
     if life and role is not None:
         lk = life_lock(role)
         lk._owner = _thread.get_ident()
@@ -92,12 +94,20 @@ def end_role():
             del held[i]
 
 
+def auto_role(thread):
+    """role of a thread nobody tagged (the pools' worker and bookkeeping threads): by the stem of its name"""
+    return "untagged:" + thread.name.split("-")[0].split(" ")[0]
+
+
 def get_role():
     r = getattr(_tls, "role", None)
     if r is None:     # a thread nobody tagged: recorded, and reported as such
-        r = ("untagged:" + threading.current_thread().name.split("-")[0].split(" ")[0], True)
+        r = (auto_role(threading.current_thread()), True)
         _tls.role = r
         THREAD_ROLE[_thread.get_ident()] = r[0]
+        # ... it is alive for as long as it asks for locks: whoever joins a thread of this kind waits for that
+        lk = life_lock(r[0])
+        _held().append(lk)
     return r
 
 
@@ -272,6 +282,8 @@ def _install_join_watch():
 
     def join(self, timeout=None):
         role = JOIN_TARGETS.get(id(self))
+        if role is None and timeout is None and self.ident is not None and self.ident not in THREAD_ROLE_TAGGED:
+            role = auto_role(self)       # a join without timeout on a pool thread (pool.join() under the handler lock)
         if role is None or timeout is not None:
             return real_join(self, timeout)
         me = _thread.get_ident()
